@@ -4,10 +4,10 @@ A change is kept only if confirm.json (written by tools/confirm_mutant.sh, i.e. 
 scratch worktree) says: demo passes without the patch, fails with it, library builds, the unedited
 suite passes with it. meta.json gets what was run and which checks caught the change."""
 import json, os, re, shutil, sys
-SRC, DST = "/tmp/mut/out", "/verif/seeded"
+SRC, DST = os.environ.get("MUT", "/tmp/mut") + "/out", "/verif/seeded"
 kept = []
 for pid in sorted(os.listdir(SRC)):
-    for v in ("A", "B"):
+    for v in ("A", "B", "C", "D"):
         d = os.path.join(SRC, pid, v)
         cj = os.path.join(d, "confirm.json")
         if not (os.path.isfile(cj) and os.path.isfile(os.path.join(d, "patch.diff")) and os.path.isfile(os.path.join(d, "meta.json"))):
